@@ -159,6 +159,45 @@ def run(ctx):
     from . import c17
 
     c17.run(ctx.sub("DEP-C17"))
+    mode_not_from_unsigned_part(ctx, "R4")
+
+
+def mode_not_from_unsigned_part(ctx, rule):
+    """"an accepted envelope remains accepted when reduced to its valid authorized signatures":
+    nothing in the unsigned signature map may choose how the envelope is judged - in every call of
+    a verifier anywhere in the repository the signature-mode argument is a constant, a parameter,
+    or computed from something other than the envelope's 'signatures' part"""
+    from sa.callgraph import CallGraph
+    from sa.effects import all_events
+
+    eng, prog = ctx.eng, ctx.prog
+    verifiers = {"authentication.verify_delegation": 3, "authentication.verify_signable": 3}
+    cg = CallGraph(prog)
+    callers = sorted(q for q, sites in cg.sites.items() if any(kind == "repo" and tgt in verifiers for _n, kind, tgt in sites))
+    n = 0
+    seen = set()
+    for q in callers:
+        fi = prog.funcs[q]
+        if fi.parent is not None:
+            continue
+        sm = eng.walk(q)
+        for p in sm.paths:
+            for ev in all_events(p.events):
+                if ev[0] != "call" or not isinstance(ev[2], str) or ev[2].split("[")[0].split("<")[0][5:] not in verifiers or (ev[1], "mode") in seen:
+                    continue
+                callee = ev[2].split("[")[0].split("<")[0][5:]
+                hit = eng.callee_index.get(ev[2])
+                order = list(hit[2]) if hit else []
+                if "gpg" not in order or order.index("gpg") >= len(ev[3]):
+                    continue
+                seen.add((ev[1], "mode"))
+                n += 1
+                mode = eng.expand(ev[3][order.index("gpg")])
+                env_arg = ev[3][1] if callee.endswith("verify_delegation") else ev[3][0]
+                tainted = mentions(mode, SubC(eng.expand(env_arg), "signatures")) or mentions(mode, SubC(env_arg, "signatures"))
+                ctx.ob(rule, "mode-source|%s|%s" % (q, ev[1].key()), ev[1].loc(), "%s calls %s with a signature mode that %s" % (q, callee.split(".")[-1], "does not depend on the envelope's unsigned signature map" if not tainted else "is computed from the envelope's unsigned 'signatures' part (%s): adding or removing an entry that counts for nothing changes how all the others are judged" % show(mode)[:100]), not tainted)
+    ctx.count(rule + ".verifier_calls", n)
+    ctx.floor(rule + ".verifier_calls", 3)
 
 
 def entries_independent(ctx, rule):
